@@ -57,6 +57,28 @@ def gen_inputs(ctx):
                     found += 1
                     break
     ctx.notes["bip85_path_keys_with_leading_zero_found"] = found
+    # requests on ONE object in Python's equivalent spellings (positional, keywords in either order, a defaulted
+    # parameter left out): the answer depends on the parameters' VALUES AND NAMES, not on how the call was written
+    # nor on what was asked before
+    def rq(app, p_, i_, spell):
+        return {"app": app, "p": p_, "ix": ix(i_), "spell": spell}
+    pairs = [(rq("hex", 32, 0, "param-only"), rq("hex", 32, 32, "index-only")),
+             (rq("hex", 20, 40, "pos"), rq("hex", 40, 20, "kw-reversed")),
+             (rq("pwd", 21, 0, "param-only"), rq("pwd", 21, 21, "index-only")),
+             (rq("pwd", 30, 40, "pos"), rq("pwd", 40, 30, "kw-reversed")),
+             (rq("mnemonic", 12, 24, "pos"), rq("mnemonic", 24, 12, "kw-reversed")),
+             (rq("mnemonic", 24, 0, "param-only"), rq("mnemonic", 24, 24, "index-only")),
+             (rq("wif", 0, 5, "pos"), rq("wif", 0, 5, "kw-all")), (rq("xprv", 0, 1, "kw-all"), rq("xprv", 0, 1, "pos"))]
+    for first, second in pairs:
+        for a_, b_ in ((first, second), (second, first)):
+            out.append(("Bip85", dict(b_, master=masters[0], history=[a_]), ("spellings-on-one-object", b_["app"], b_["spell"])))
+    for _ in range(6 if q else 120):
+        app = rng.choice(["hex", "pwd", "mnemonic"])
+        vals = {"hex": [16, 20, 32, 33, 64], "pwd": [20, 21, 30, 86], "mnemonic": [12, 18, 24]}[app]
+        hist = [rq(app, rng.choice(vals), rng.choice([0, 1, 12, 20, 21, 24, 32]), rng.choice(["pos", "kw-all", "kw-reversed", "index-only", "param-only"]))
+                for _ in range(rng.randrange(1, 4))]
+        last = rq(app, rng.choice(vals), rng.choice([0, 1, 12, 20, 21, 24, 32]), rng.choice(["pos", "kw-all", "kw-reversed", "index-only", "param-only"]))
+        out.append(("Bip85", dict(last, master=rng.choice(masters), history=hist), ("spellings-random-history", app)))
     # two DIFFERENT masters with the SAME 4-byte fingerprint (cd9258b3, a birthday pair of 16-byte seeds), asked the same
     # question one after the other in one process: whatever is remembered between calls must be remembered per KEY,
     # not per short identifier
@@ -78,6 +100,15 @@ def gen_inputs(ctx):
         out.append(("Bip85", {"master": m, "app": "hex", "p": nb, "ix": ix(0)}, ("hex-bad", nb)))
     for ln in (0, 1, 19, 87, 88, 100):
         out.append(("Bip85", {"master": m, "app": "pwd", "p": ln, "ix": ix(0)}, ("pwd-bad", ln)))
+    # parameters FAR from the bounds that mean something in a neighbouring vocabulary (entropy bits for word counts, bit
+    # counts for byte counts, word counts for lengths ...), negative ones, and a sweep of everything up to 300
+    alias = [128, 160, 192, 224, 256, 132, 165, 198, 231, 264, 512, 1024, 2048, 39, 32, 64, 16, 3, 6, 8, -12, -24, -1]
+    sweep = alias + (list(range(31, 301)) if not q else rng.sample(range(31, 301), 12))
+    for v in sweep:
+        for app, lo, hi, okset in (("mnemonic", 12, 24, (12, 15, 18, 21, 24)), ("hex", 16, 64, None), ("pwd", 20, 86, None)):
+            legal = (v in okset) if okset else (lo <= v <= hi)
+            if not legal and (not q or v in alias or rng.random() < 0.5):
+                out.append(("Bip85", {"master": m, "app": app, "p": v, "ix": ix(rng.choice([0, 1]))}, (app + "-far-out", v in alias, v < 0)))
     # out-of-range indexes for every application, incl. negative ones
     for i in (-1, -2, -(2 ** 31), -(2 ** 31) - 1, 2 ** 31, 2 ** 31 + 1, 2 ** 32 - 1, 2 ** 32, 2 ** 40):
         for app, p in (("mnemonic", 12), ("wif", 0), ("xprv", 0), ("hex", 32), ("pwd", 21)):
